@@ -192,6 +192,10 @@ def run_tlc(module, cfg, tag, workers=8, timeout=1800, env_extra=None, coverage=
                 err_lines.append(line.strip())
     if rc != 0 or err_lines:
         res["error"] = "; ".join(err_lines[:5]) or ("TLC exit %d" % rc)
+    # an error trace over tens of thousands of trace-validation states can be gigabytes: keep the head
+    if os.path.getsize(out_path) > 200_000_000:
+        with open(out_path, "rb+") as f:
+            f.truncate(200_000_000)
     log("[tlc] %s %s: %d generated / %d distinct, %.1fs%s" % (
         module, tag, res["states"], res["distinct"], res["wall"],
         (" ERROR " + res["error"]) if res["error"] else ""))
@@ -332,6 +336,32 @@ def run_vh(args, out_path, profile="release", timeout=3600, env_extra=None):
         if not pend:
             raise ToolError("vh failed without a pending case: rc=%s\n%s" % (p.returncode, p.stderr[-2000:]))
         rec = json.loads(pend)
+        if p.returncode == 3:
+            # the 60 s watchdog is wall-clock: under load a slow case is not a hang.  Re-run this one
+            # case alone with a 15 min limit; only a hang that repeats is recorded as one.
+            tmp = out_path + ".confirm"
+            cmd2 = [vh] + list(args) + ["--out", tmp, "--skip", str(rec["i"]), "--limit", str(rec["i"] + 1),
+                                        "--hang-s", "900"]
+            try:
+                p2 = subprocess.run(cmd2, stdout=subprocess.PIPE, stderr=subprocess.PIPE, text=True,
+                                    timeout=1000, env=env)
+                rc2 = p2.returncode
+            except subprocess.TimeoutExpired:
+                rc2 = 3
+            if rc2 == 0:
+                with open(out_path, "rb+") as f:
+                    data = f.read()
+                    if data and not data.endswith(b"\n"):
+                        f.truncate(data.rfind(b"\n") + 1)
+                with open(out_path, "a") as f:
+                    f.write(open(tmp).read())
+                for q in (tmp, tmp + ".pending"):
+                    if os.path.exists(q):
+                        os.remove(q)
+                skip = rec["i"] + 1
+                append = True
+                log("[vh] case %d exceeded the watchdog under load but completes alone; not a hang" % rec["i"])
+                continue
         rec["verdict"] = "hang" if p.returncode == 3 else "abort"
         rec["msg"] = "exit %s: %s" % (p.returncode, p.stderr.strip().splitlines()[-1][:200] if p.stderr.strip() else "")
         # drop a possibly half-written last line, then append the crash record
